@@ -839,6 +839,8 @@ type phist struct {
 	// Offset of the FIRST request (one partition, from head): the chain continued by NextQueryRequest must deliver
 	// everything behind the first Offset matching events; the answer's next request must not carry the offset again
 	Offset int `json:"offset,omitempty"`
+	// FieldWhere: the WHERE tests a field (see rdh.SetFieldMode)
+	FieldWhere bool `json:"fw,omitempty"`
 }
 
 func genPHist(rng *vh.Rng, chunkSize int, i int) phist {
@@ -941,6 +943,23 @@ func genPHist(rng *vh.Rng, chunkSize int, i int) phist {
 			h.Appends[pl.pg] = append(h.Appends[pl.pg], g.batch(rng, pl.p, pl.n))
 		}
 	}
+	// WHERE on a FIELD in half of the filtered histories: kept events carry it, the others another value or no fields at
+	// all (a field-less event must not inherit the fields of the record visited before it — in either direction)
+	if h.Where && rng.Bool() {
+		h.FieldWhere = true
+		for bi := range h.Init {
+			for ei := range h.Init[bi].Evs {
+				rdh.SetFieldMode(&h.Init[bi].Evs[ei], rng.Intn(4))
+			}
+		}
+		for k := range h.Appends {
+			for bi := range h.Appends[k] {
+				for ei := range h.Appends[k][bi].Evs {
+					rdh.SetFieldMode(&h.Appends[k][bi].Evs[ei], rng.Intn(4))
+				}
+			}
+		}
+	}
 	return h
 }
 
@@ -1000,6 +1019,7 @@ func field(ans, key string) string {
 
 func runPHist(srv *lrsrv.Srv, drv *vh.Driver, h phist, sec *vh.Section, verbose bool) {
 	w := rdh.NewWorld(srv, newGrp())
+	w.FieldWhere = h.FieldWhere
 	fail := func(kind, what, impl, spec, finding string, eq bool, mdl string) {
 		res.SpecFail(vh.SpecFailure{Section: "paging", Kind: kind, Input: h, Impl: impl, Spec: spec, Model: mdl, ImplEqModel: eq, Finding: finding, What: what})
 	}
